@@ -88,6 +88,12 @@ Theorem C10_clean_lines_read :
   forall a u, view D a = Some u -> Reads D a u.
 Proof. exact view_reads. Qed.
 
+(** and conversely: the inductive reading of the theorems is exactly the clean executable reading *)
+Theorem C10_reads_iff_view :
+  forall D, oi_lookup D s_dd = None -> oi_lookup D [c_dash; c_eq] = None ->
+  forall a u, Reads D a u <-> view D a = Some u.
+Proof. exact reads_iff_view. Qed.
+
 Theorem C10_same_reading_same_parse :
   forall parse_float opts args spec i a1 a2 u,
     compile opts args spec = IOk i ->
@@ -112,6 +118,7 @@ Print Assumptions C10_spellings_read_alike.
 Print Assumptions C10_folded_read_alike.
 Print Assumptions C10_respelling_changes_nothing.
 Print Assumptions C10_clean_lines_read.
+Print Assumptions C10_reads_iff_view.
 Print Assumptions C10_same_reading_same_parse.
 Print Assumptions C10_own_matcher_cannot_tell_spellings_apart.
 Print Assumptions C10_own_matcher_binds_the_value.
